@@ -2007,3 +2007,135 @@ func scenStaleSuffixInstallCrash(e *engineA) error {
 	e.sleepHB(5, 9)
 	return e.finish()
 }
+
+func init() { scenarios["slow-fsm-install"] = scenSlowFSMInstall }
+
+// scenSlowFSMInstall (C15 / C09 / C03): a follower's state machine is slow, so
+// it holds a backlog of committed entries that are not applied yet (the state
+// machine goroutine reads them from the log). While it works through the
+// backlog the follower falls behind a compaction and is brought back by
+// snapshot installation, which discards or compacts the log under the reader.
+func scenSlowFSMInstall(e *engineA) error {
+	e.prof = profiles["snapshot"]
+	if err := e.boot(3); err != nil {
+		return err
+	}
+	e.cl.startInfoSampler(e.hb() / 2)
+	l := e.cl.leader()
+	if l == nil {
+		return fmt.Errorf("no leader")
+	}
+	pad := 90 + 10*e.rng.Intn(4)
+	for i := 0; i < 5; i++ {
+		e.cl.fsmOpPad(1, l, "update", pad)
+	}
+	f := e.others(l)[e.rng.Intn(2)]
+	e.rc.emit(&ev.Rec{K: "fault", Op: "slow-state-machine-then-install", Nid: f.nid})
+	e.pc.setSlow(f.dir, "fsm.beforeApply", e.hb()/2)
+	// a backlog on f: committed, not yet applied there
+	for i := 0; i < 10+e.rng.Intn(10); i++ {
+		e.cl.fsmOpPad(1, l, "update", pad)
+	}
+	e.isolate(f, true)
+	for i := 0; i < 20+e.rng.Intn(30); i++ {
+		if r := e.cl.fsmOpPad(1, l, "update", pad); !r.ok {
+			break
+		}
+	}
+	e.sleepHB(4, 5)
+	e.cl.takeSnapshot(l, 0)
+	e.waitFor(30, func() bool {
+		info, ok := l.info(false)
+		return ok && info.FirstLogIndex > 4
+	})
+	// f is still working through its backlog when the snapshot arrives
+	e.isolate(f, false)
+	e.sleepHB(6, 10)
+	e.pc.setSlow(f.dir, "fsm.beforeApply", 0)
+	e.startClients(2, map[string]int{"update": 3, "read": 1})
+	e.sleepHB(4, 8)
+	return e.finish()
+}
+
+func init() { scenarios["deposed-leader-truncates"] = scenDeposedLeaderTruncates }
+
+// scenDeposedLeaderTruncates (C15 / C04): a leader that stays in office while
+// it is cut off (quorum wait) holds an uncommitted tail of several segments
+// and keeps trying to replicate it. After the heal the new leader's first
+// request reaches it while it still is leader: it steps down inside the
+// request handler and removes the conflicting tail, or replaces its log by a
+// snapshot - while its replications are reading that log.
+func scenDeposedLeaderTruncates(e *engineA) error {
+	e.prof = profiles["general"]
+	if err := e.boot(3); err != nil {
+		return err
+	}
+	e.cl.startInfoSampler(e.hb() / 2)
+	l := e.cl.leader()
+	if l == nil {
+		return fmt.Errorf("no leader")
+	}
+	for i := 0; i < 4; i++ {
+		e.cl.fsmOp(1, l, "update")
+	}
+	pad := 100 + 10*e.rng.Intn(6)
+	stale := 25 + e.rng.Intn(25)
+	e.pc.setSlow(l.dir, "repl.beforeRead", e.hb()/8)
+	oneWay := e.rng.Intn(2) == 0
+	var nl *Node
+	if oneWay {
+		// the leader cannot send but still receives: the very first request of
+		// its successor (the successor's no-op, at an index where the old
+		// leader holds an entry of its own) reaches it while it leads
+		e.rc.emit(&ev.Rec{K: "fault", Op: "leader-cannot-send-but-receives", Nid: l.nid})
+		for _, o := range e.others(l) {
+			e.net.Cut(l.label, o.label, true)
+		}
+		for i := 0; i < stale; i++ {
+			go e.cl.fsmOpPad(3, l, "update", pad)
+		}
+		if !e.waitFor(80, func() bool {
+			for _, f := range e.others(l) {
+				if info, ok := f.info(false); ok && info.State == raft.Leader {
+					nl = f
+					return true
+				}
+			}
+			return false
+		}) {
+			return fmt.Errorf("the others elected no leader")
+		}
+	} else {
+		var err error
+		if nl, err = e.staleTail(l, stale, pad); err != nil {
+			return err
+		}
+	}
+	n := 3 + e.rng.Intn(10)
+	for i := 0; i < n; i++ {
+		if r := e.cl.fsmOpPad(1, nl, "update", pad); !r.ok {
+			break
+		}
+	}
+	if e.rng.Intn(2) == 0 {
+		// the others compact: the deposed leader is sent a snapshot
+		e.sleepHB(4, 5)
+		e.cl.takeSnapshot(nl, 0)
+		e.waitFor(30, func() bool {
+			info, ok := nl.info(false)
+			return ok && info.FirstLogIndex > 4
+		})
+	}
+	info, _ := l.info(true)
+	e.rc.emit(&ev.Rec{K: "fault", Op: "heal-deposed-leader", Nid: l.nid, Note: fmt.Sprintf("state %c", info.State)})
+	e.isolate(l, false)
+	for _, o := range e.others(l) {
+		e.net.Cut(l.label, o.label, false)
+		e.net.Release(l.label, o.label, true)
+	}
+	e.sleepHB(4, 8)
+	e.pc.setSlow(l.dir, "repl.beforeRead", 0)
+	e.startClients(2, map[string]int{"update": 3, "read": 1})
+	e.sleepHB(4, 8)
+	return e.finish()
+}
